@@ -4,7 +4,8 @@
 (*          {"e":"Append","d":[bytes],"w":[[bytes],..],"buffered":k,"res":"ok"}          *)
 (*          {"e":"Flush", "d":[],     "w":[[bytes],..],"buffered":k,"res":"ok"}          *)
 EXTENDS WriteBuffer, TLC, Json, IOUtils
-VARIABLE l
+CONSTANT Stats     \* TRUE: the counters of the statistics policy (WriteCountPolicy) are judged as well (extension check X06)
+VARIABLE l, st     \* st: <<numAppendCalled, bytesAppended, numFlushCalled, bytesFlushed>> as documented in write_buffer.hpp
 Log == ndJsonDeserialize(IOEnv.TRACE)
 Ev == Log[l]
 \* Acceptance is declarative (the property does not fix WHEN buffered bytes are written, only that every byte
@@ -23,11 +24,17 @@ Step(d, isFlush) ==
    /\ (Len(d) >= n => buf' = <<>>)                 \* oversized: passed through after flushing what was buffered
    /\ Ev.res = "ok"
    /\ UNCHANGED n
-TInit == /\ l = 1 /\ n = 0 /\ buf = <<>> /\ sink = <<>> /\ appended = <<>> /\ lastw = <<>>
+   \* statistics: "how many times append() was called" / "how many bytes were appended" (a call without data may or may not
+   \* count: the policy hook is documented as "called when data is appended"), "called when data is written to the
+   \* destination ... counts the number of calls and the amount of bytes written"
+   /\ st' = <<Ev.st[1], st[2] + Len(d), st[3] + Len(Ev.w), st[4] + Len(Flat(Ev.w))>>
+   /\ Stats => /\ Ev.st = st'
+               /\ Ev.st[1] \in (IF isFlush THEN {st[1]} ELSE IF Len(d) > 0 THEN {st[1] + 1} ELSE {st[1], st[1] + 1})
+TInit == /\ l = 1 /\ n = 0 /\ buf = <<>> /\ sink = <<>> /\ appended = <<>> /\ lastw = <<>> /\ st = <<0, 0, 0, 0>>
 TNext == /\ l <= Len(Log) /\ l' = l + 1
          /\ \/ Ev.e = "Append" /\ Step(Ev.d, FALSE)
             \/ Ev.e = "Flush"  /\ Step(<<>>, TRUE)
-            \/ Ev.e = "Reset"  /\ n' = Ev.N /\ buf' = <<>> /\ sink' = <<>> /\ appended' = <<>> /\ lastw' = <<>>
-TSpec == TInit /\ [][TNext]_<<vars, l>>
+            \/ Ev.e = "Reset"  /\ n' = Ev.N /\ buf' = <<>> /\ sink' = <<>> /\ appended' = <<>> /\ lastw' = <<>> /\ st' = <<0, 0, 0, 0>>
+TSpec == TInit /\ [][TNext]_<<vars, l, st>>
 Accepted == TLCGet("stats").diameter = Len(Log) + 1
 =============================================================================
